@@ -26,6 +26,7 @@ for d in sorted(os.listdir(seeded)):
                 failed.append('%s:%s' % (pid, lines[-1][:150] if lines else ''))
     finally:
         subprocess.run(['git', '-C', REPO, 'checkout', '--', '.'])
+        subprocess.run(['git', '-C', REPO, 'clean', '-fdq', 'src'])   # files a patch added
     res[d] = {'caught_by': caught, 'check_failed': failed}
     own = d.split('-')[0]
     print(d, 'OWN' if any(c.startswith(own) for c in caught) else ('other' if caught else 'MISSED'), caught, failed)
